@@ -171,3 +171,131 @@ var smProp = ev.Register(&ev.Prop[SMCase]{
 })
 
 func TestC08StateMachine(t *testing.T) { smProp.Check(t, 60, 2000) }
+
+// ---------------------------------------------------------------------------
+// Several connections on one state machine: the capabilities exchange of one peer, stuck because
+// that peer does not read its CEA, must not hold up another peer's exchange or its requests.
+
+type SM2Case struct {
+	Others int `json:"others"` // further connections that shake hands and send requests meanwhile (1..3)
+	Apps   int `json:"apps"`   // requests each of them sends after its CEA (1..3)
+	// StuckAt: the message of the first peer whose answer gets stuck in the transport:
+	// "CEA" (its capabilities exchange) or "DWA" (a watchdog answer after a completed exchange)
+	StuckAt string `json:"stuck_at"`
+}
+
+func smCER(hbh uint32) []byte {
+	return refcodec.EncodeMessage(refcodec.Header{Version: 1, Flags: 0x80, Code: 257, HopByHop: hbh, EndToEnd: 2},
+		[]*refcodec.Node{{Code: 264, Flags: 0x40, Payload: []byte("peer.example")}, {Code: 296, Flags: 0x40, Payload: []byte("example")},
+			{Code: 257, Flags: 0x40, Payload: refcodec.Address(1, []byte{10, 0, 0, 2})}, {Code: 266, Flags: 0x40, Payload: refcodec.U32(1)},
+			{Code: 269, Payload: []byte("p")}, {Code: 258, Flags: 0x40, Payload: refcodec.U32(4)}}, false)
+}
+
+func runSM2(c SM2Case) *ev.Failure {
+	machine := sm.New(&sm.Settings{OriginHost: "srv.example", OriginRealm: "example", VendorID: 13, ProductName: "verif",
+		HostIPAddresses: []datatype.Address{datatype.Address([]byte{10, 0, 0, 1})}})
+	var mu sync.Mutex
+	seen := map[string]int{} // remote address -> application requests handled
+	machine.HandleFunc("ALL", func(cn diam.Conn, m *diam.Message) {
+		mu.Lock()
+		seen[cn.RemoteAddr().String()]++
+		mu.Unlock()
+	})
+	stop := make(chan struct{})
+	defer close(stop)
+	go func() { // the application reads neither channel eagerly; keep them from filling for good
+		for {
+			select {
+			case <-machine.ErrorReports():
+			case <-stop:
+				return
+			}
+		}
+	}()
+	first := memnet.NewConn()
+	first.Remote = memnet.Addr{Net: "tcp", Str: "10.9.5.1:40000"}
+	stuck := make(chan struct{}, 1)
+	release := make(chan struct{})
+	wantCode := uint32(257)
+	if c.StuckAt == "DWA" {
+		wantCode = 280
+	}
+	first.WriteHook = func(b []byte, accept func([]byte)) (int, error) {
+		if h, err := refcodec.DecodeHeader(b); err == nil && h.Code == wantCode && h.Flags&0x80 == 0 {
+			select {
+			case stuck <- struct{}{}:
+			default:
+			}
+			<-release
+		}
+		accept(b)
+		return len(b), nil
+	}
+	var all []*memnet.Conn
+	defer func() {
+		close(release)
+		for _, mc := range all {
+			mc.FeedEOF()
+			mc.WaitClosed(2 * time.Second)
+			mc.Close()
+		}
+	}()
+	all = append(all, first)
+	if _, err := diam.NewConn(first, "", machine, dict.Default); err != nil {
+		return ev.Failf("harness-conn", "%v", err)
+	}
+	first.Feed(smCER(1))
+	if c.StuckAt == "DWA" {
+		if !first.WaitWrites(1, dispatchDeadline) {
+			return ev.Failf("harness-handshake", "no CEA for the first peer within %v", dispatchDeadline)
+		}
+		first.Feed(smDWR(0))
+	}
+	select {
+	case <-stuck:
+	case <-time.After(dispatchDeadline):
+		return ev.Failf("dispatch-missing", "the first peer's %s was not written within %v", c.StuckAt, dispatchDeadline)
+	}
+	// the first peer's answer is stuck in its transport now
+	for k := 0; k < c.Others; k++ {
+		mc := memnet.NewConn()
+		mc.Remote = memnet.Addr{Net: "tcp", Str: fmt.Sprintf("10.9.5.%d:40000", k+2)}
+		all = append(all, mc)
+		if _, err := diam.NewConn(mc, "", machine, dict.Default); err != nil {
+			return ev.Failf("harness-conn", "%v", err)
+		}
+		mc.Feed(smCER(uint32(10 + k)))
+		if !mc.WaitWrites(1, dispatchDeadline) {
+			return ev.Failf("dispatch-delayed-by-held-handler", "while the %s of connection 0 is stuck in its transport (that peer does not read), connection %d sent a CER and got no CEA within %v: the state machine's handlers of one connection hold up another connection", c.StuckAt, k+1, dispatchDeadline)
+		}
+		for i := 0; i < c.Apps; i++ {
+			mc.Feed(smAPP(i))
+		}
+		deadline := time.Now().Add(dispatchDeadline)
+		for {
+			mu.Lock()
+			n := seen[mc.Remote.String()]
+			mu.Unlock()
+			if n >= c.Apps {
+				break
+			}
+			if time.Now().After(deadline) {
+				return ev.Failf("dispatch-delayed-by-held-handler", "while the %s of connection 0 is stuck in its transport, connection %d completed its handshake and sent %d requests; %d reached the handler within %v", c.StuckAt, k+1, c.Apps, n, dispatchDeadline)
+			}
+			time.Sleep(time.Millisecond)
+		}
+	}
+	return nil
+}
+
+var sm2Prop = ev.Register(&ev.Prop[SM2Case]{
+	ID: "C08", Name: "state-machine-connections",
+	Rule: "several connections served by ONE sm.StateMachine; the first peer does not read: its CEA (or, after its exchange, a watchdog answer) is stuck inside the transport's Write; 1..3 further peers then send a CER and 1..3 requests each: every one must get its CEA and have its requests handled within 5 s; every case non-trivial",
+	Gen: func(t *rapid.T) SM2Case {
+		return SM2Case{Others: rapid.IntRange(1, 3).Draw(t, "others"), Apps: rapid.IntRange(1, 3).Draw(t, "apps"), StuckAt: rapid.SampledFrom([]string{"CEA", "DWA"}).Draw(t, "stuck-at")}
+	},
+	Run:      runSM2,
+	Classify: func(c SM2Case) (bool, []string) { return true, []string{"stuck:" + c.StuckAt} },
+})
+
+func TestC08StateMachineConnections(t *testing.T) { sm2Prop.Check(t, 18, 400) }
